@@ -7,11 +7,20 @@ HDR = ("From Coq Require Import NArith ZArith List String Ascii Bool.\n"
 REGISTRY = {}
 
 
-def prop(pid):
-    def deco(f):
-        REGISTRY[pid] = f
-        return f
-    return deco
+class _Lazy(dict):
+    """pid -> runner; the module vlib/p_<pid>.py is imported only when that property is asked for, so a
+    half-written module for another property cannot break this one."""
+
+    def __contains__(self, pid):
+        import os
+        return os.path.exists(os.path.join(os.path.dirname(__file__), "p_%s.py" % pid))
+
+    def __getitem__(self, pid):
+        import importlib
+        return importlib.import_module("vlib.p_%s" % pid).run
+
+
+REGISTRY = _Lazy()
 
 
 def standard(ctx, pid, run_targets, stages, known_bits=None, rule="", assumptions=None, extra=None):
@@ -28,16 +37,3 @@ def standard(ctx, pid, run_targets, stages, known_bits=None, rule="", assumption
     return core.finish(ctx, pid, P, known_bits=known_bits, rule=rule, assumptions=assumptions, extra=extra)
 
 
-@prop("C12")
-def c12(ctx):
-    n = {"quick": 160, "thorough": 4000}[ctx.tier]
-
-    def stages(ctx, mult, suffix, off):
-        ctx.stage("c12" + suffix, "sdk/go/keepclient", "keepclient", ["C12/zz_verif_c12_test.go"], "TestVerifC12$",
-                  n * mult, HDR.format(imports="model.C12_model model.C12_run"), seed_offset=off, shard=20,
-                  env={"VERIF_STAGE": "c12" + suffix})
-    return standard(ctx, "C12", ["model/C12_run.vo"], stages,
-                    rule="random service sets (1-32 services, 27-char/short/long uuids, shared 15-char suffixes), locators with 0-4 "
-                         "hints; distinct by hash of the case term; non-trivial = at least 2 local services",
-                    assumptions=["MD5 is computed by the Gallina implementation lib/Md5.v (validated by this correspondence: every weight comparison depends on it)",
-                                 "with equal weights the order is unspecified: such cases are judged by the relation only"])
